@@ -395,6 +395,9 @@ def strat_multi(draw, tier="quick"):
             for ti, t in enumerate(g_["transcripts"]):
                 t["protein_id"] = "%s_p%d_%d" % (nm, gi, ti) if "cds" in t else None
         n = hi + draw(st.integers(1, 6))
+        if i >= 1 and draw(st.integers(0, 5)) == 0:
+            # a sequence nothing is annotated on yet: its block has the sequence-region (and FASTA) lines only
+            o["genes"], o["feature_collections"] = [], []
         parts.append({"name": nm, "obj": o, "genome": draw(S.dna(n, n))})
     return {"parts": parts, "fasta": draw(st.booleans()), "ordered": draw(st.sampled_from([True, True, False])),
             "container": draw(st.sampled_from(["list", "tuple", "generator", "iterator"]))}
